@@ -33,6 +33,7 @@ mutual
     | .ret e => .ret (e.map erase)
     | .throw_ e => .throw_ (erase e)
     | .try_ b p c => .try_ (erase b) p (erase c)
+    | .switch_ sc arms => .switch_ (erase sc) (arms.map fun a => match a with | .mk p b => .mk p (erase b))
     | e => e
   partial def eraseIt : ForIt → ForIt
     | .iter k p e => .iter k p (erase e)
